@@ -27,6 +27,9 @@ type C14Config struct {
 	OutExists bool `json:"out_exists,omitempty"`
 	// InPlace: -o names the (single) input file itself
 	InPlace bool `json:"in_place,omitempty"`
+	// Glob: the first input file has a name that reads as a wildcard pattern (in[0].json, in?.json,
+	// in*.json); a sibling file that the pattern would match exists and is NOT an input
+	Glob string `json:"glob,omitempty"`
 	// StdinFile: standard input is redirected from a regular file instead of being a pipe
 	StdinFile bool `json:"stdin_file,omitempty"`
 	// Fifo: the input files are named pipes instead of regular files (same bytes, same names)
@@ -84,6 +87,9 @@ func (c *C14Config) runCLI(progFile bool, stdin bool, out string, prog string, s
 	}
 	if out == "FILE" && c.OutExists && !c.InPlace {
 		files["out.json"] = []byte(c14OldOut)
+	}
+	if c.Glob != "" && !stdin {
+		files["in0.json"] = []byte("[\"a sibling file that is not an input\"]\n")
 	}
 	var in []byte
 	fifos := map[string][]byte{}
@@ -326,6 +332,12 @@ func genC14(t *rapid.T) (*C14Config, []string) {
 	}
 	for i := range c.Files {
 		c.Files[i].Name = fmt.Sprintf("in%d.json", i)
+	}
+	if rapid.IntRange(0, 5).Draw(t, "globname") == 0 {
+		// a file name that is a file name, not a pattern
+		c.Glob = rapid.SampledFrom([]string{"in[0].json", "in?.json", "in*.json"}).Draw(t, "globpattern")
+		c.Files[0].Name = c.Glob
+		labels = append(labels, "file-name-with-wildcard-characters")
 	}
 	// now and then an input that is not clean JSON text: the binary must treat the
 	// bytes exactly as the library does, whether they come from a file or from stdin
